@@ -130,6 +130,14 @@ class Geometry(ABC):
     def copy(self):
         pass
 
+    def __copy__(self, *args):
+        # the default shallow copy would share every array
+        # and dictionary with the original object
+        return self.copy()
+
+    def __deepcopy__(self, *args):
+        return self.copy()
+
     @abc.abstractmethod
     def show(self):
         pass
